@@ -222,11 +222,20 @@ def weed_episodes(run, sb, rng, tier):
         ns = rng.randint(1, 5)
         samples = gen.related_samples(rng, k, ns, length=rng.randint(2 * k + 5, 3 * k + 40), snp_rate=0.04)
         names = ["w%d_%d" % (i, j) for j in range(ns)]
+        pal = None
+        if i % 2 == 0:
+            # a split k-mer whose arms are each other's reverse complement (an inverted repeat around one base), present in a
+            # sample and - with another middle base half of the time - in the weed file
+            pal = gen.selfrc_window(rng, k)
+            samples[rng.randrange(ns)].append(gen.rand_seq(rng, rng.randint(0, 6)) + pal + gen.rand_seq(rng, rng.randint(0, 6)))
         sb.reset()
         e = sb.build("x", samples, names, k, rc)
         if not e.get("ok"):
             continue
         w = weed_set(rng, samples, k)
+        if pal is not None:
+            h = (k - 1) // 2
+            w.append(gen.rand_seq(rng, rng.randint(0, 4)) + pal[:h] + (rng.choice("ACGT") if i % 4 == 0 else pal[h]) + pal[h + 1:] + gen.rand_seq(rng, rng.randint(0, 4)))
         if not any(_has_window(r, k) for r in w):
             continue        # precondition: a weed file without any window makes the tool refuse (not covered)
         z = [0, 1000]
